@@ -25,6 +25,8 @@ type Op struct {
 	Short   bool      `json:"short,omitempty"` // transaction timeout: short (shortT) or one hour
 	// the device refuses the rollback when this (short) transaction expires
 	RollbackFails bool `json:"rollback_fails,omitempty"`
+	// the Set re-uses a transaction id: the id of the open transaction (a client retry) or of an earlier one
+	Reuse string `json:"reuse,omitempty"` // "" | open | stale
 	// confirm / cancel
 	ID string `json:"id,omitempty"` // open | stale | unknown
 }
@@ -61,6 +63,7 @@ func gen(t *rapid.T) *Case {
 			op.Step = vlib.Step{Intents: []vlib.IntentOp{io}}
 			op.Short = rapid.IntRange(0, 2).Draw(t, "short-timeout") == 0
 			op.RollbackFails = op.Short && rapid.IntRange(0, 3).Draw(t, "rollback-fails") == 0
+			op.Reuse = rapid.SampledFrom([]string{"", "", "", "open", "open", "stale"}).Draw(t, "reuse-id")
 		case "confirm", "cancel":
 			op.ID = rapid.SampledFrom([]string{"open", "open", "stale", "unknown"}).Draw(t, "id")
 		}
@@ -71,7 +74,7 @@ func gen(t *rapid.T) *Case {
 
 var prop = vlib.Prop[*Case]{
 	ID: "C06",
-	Rule: "case = sequence of 2..9 operations over {TransactionSet(valid | validation failure | dry run | device error; transaction timeout 300 ms or 1 h), TransactionConfirm / TransactionCancel(id of the open transaction | id of an earlier transaction | never used id), wait-for-timeout} on one real datastore; a Set issued while a transaction is open gets a 300 ms context; " +
+	Rule: "case = sequence of 2..9 operations over {TransactionSet(valid | validation failure | dry run | device error; transaction timeout 300 ms or 1 h), TransactionConfirm / TransactionCancel(id of the open transaction | id of an earlier transaction | never used id), wait-for-timeout} on one real datastore; a Set issued while a transaction is open gets a 300 ms context and may carry the id of the open transaction (client retry) or of an earlier one; " +
 		"oracle = reference model of the slot (none | open(id)): Set while open is refused and leaves the open transaction and the device untouched; Confirm / Cancel with another id fail, the same transaction stays open with its timer armed (observer hook, sampled over 30 ms) and the device sees no traffic; a short transaction left alone is rolled back exactly once (one device call, which the device is made to refuse for a quarter of them) and the slot is free 700 ms after its timeout; Confirm of the open id frees the slot without device traffic and no rollback follows; Cancel of the open id frees it with exactly one device call; after every other Set outcome (validation failure, dry run, device error) the slot is free no later than 700 ms after the transaction timeout without any client action and the next Set is accepted; answers inside the uncertainty window of a short timeout (120 ms .. timeout + 700 ms) are not judged; " +
 		"non-trivial = at least one confirm / cancel with a foreign id on an open transaction, a Set on an occupied slot, a timeout expiry, or a non-success Set outcome followed by another Set; distinct = distinct cases",
 	Gen:  gen,
@@ -289,6 +292,14 @@ func Exec(c *Case) (nontrivial bool, labels []string, fail *vlib.Failure) {
 		case "set":
 			r.txn++
 			id := "t" + strconv.Itoa(r.txn)
+			switch {
+			case op.Reuse == "open" && r.cur != nil:
+				id = r.cur.id
+				r.lab["set-reuses-open-id"] = true
+			case op.Reuse == "stale" && len(r.stale) > 0:
+				id = r.stale[len(r.stale)-1]
+				r.lab["set-reuses-earlier-id"] = true
+			}
 			res := h.Model.ResolveStep(h.Uni, h.Palette, op.Step)
 			tis := r.buildReqs(res)
 			if tis == nil {
